@@ -572,6 +572,18 @@ class FormulaEngine3Phase(Generic[QuantityT]):
                 phase_1 = await phase_1_rx.receive()
                 phase_2 = await phase_2_rx.receive()
                 phase_3 = await phase_3_rx.receive()
+                # The per-phase engines synchronize their own inputs independently,
+                # so they can start at different timestamps.  Drop the samples of
+                # the phases that lag behind, so all values belong to one timestamp.
+                latest_ts = max(
+                    phase_1.timestamp, phase_2.timestamp, phase_3.timestamp
+                )
+                while phase_1.timestamp < latest_ts:
+                    phase_1 = await phase_1_rx.receive()
+                while phase_2.timestamp < latest_ts:
+                    phase_2 = await phase_2_rx.receive()
+                while phase_3.timestamp < latest_ts:
+                    phase_3 = await phase_3_rx.receive()
                 msg = Sample3Phase(
                     phase_1.timestamp,
                     phase_1.value,
